@@ -204,6 +204,48 @@ def pratt_prefix(owner, parser_struct):
             ck.require(ex, 'G3_prefix_binds_tighter', r.pc, None, z3.BoolVal(good), lambda mm, w=dict(w0, top=str(kk.variant)): w, lambda mm, w: 'prefix-grouping')
 
 
+# the documented meaning of the prefix symbols (ast.rs doc comments on UnaryOp: NOT, `-`, `~`)
+PREFIX_OP = {'Minus': 'Neg', 'Not': 'Not', 'Bang': 'Not', 'Tilde': 'BitNot'}
+ck.declare('G4_prefix_chain_nests_in_order', 'P1 P2 a for every ordered pair of prefix tokens (-, NOT, !, ~); both Pratt loops',
+           'parses as P1 (P2 a): the operator written first is the outermost, each token maps to its documented unary operator')
+
+
+def pratt_prefix_chain(owner, parser_struct):
+    for p1 in PREFIX_OP:
+        for p2 in PREFIX_OP:
+            st = ex.new_state()
+            t1 = mk_token(st, Enum('token::TokenKind', P.variant_index('TokenKind', p1), {}, variant=p1), 0)
+            t2 = mk_token(st, Enum('token::TokenKind', P.variant_index('TokenKind', p2), {}, variant=p2), 1)
+            toks = [t1, t2, int_token(st, 0, 2)]
+            st.env['tokens'] = toks[1:]
+            st.env['tokpos'] = 0
+            p = Struct(parser_struct, {}, lazy='P')
+            p.fields[F(parser_struct, 'current')] = toks[0]
+            p.fields[F(parser_struct, 'peeked')] = none('Option<Token>')
+            if parser_struct == 'ExprParser':
+                p.fields[F(parser_struct, 'depth')] = Int(z3.BitVecVal(0, 64), False)
+            res = run(st, f'{owner}::parse_expr_bp', [ref(p), Int(z3.BitVecVal(0, 8), False)])
+            ck.note_path_problem(res, f'{owner}::parse_expr_bp prefixes {p1} {p2}')
+            for r in res:
+                w0 = {'parser': owner, 'prefixes': [p1, p2]}
+                if r.status not in ('return', 'panic'):
+                    continue
+                if r.status != 'return' or r.retval.variant != 'Ok':
+                    ck.require(ex, 'G4_prefix_chain_nests_in_order', r.pc, None, z3.BoolVal(False), lambda mm, w=dict(w0, outcome=str(r.status) + ' ' + str(r.msg)): w, lambda mm, w: 'prefix-chain-failed')
+                    continue
+                e = r.retval.fields[('Ok', 0)]
+                kk = e.load(F('Expr', 'kind'), None, r.st)
+                shape = []
+                cur = kk
+                while cur.variant == 'Unary' and len(shape) < 4:
+                    shape.append(cur.fields[('Unary', 0)].variant)
+                    cur = cur.fields[('Unary', 1)].load(r.st).load(F('Expr', 'kind'), None, r.st)
+                good = shape == [PREFIX_OP[p1], PREFIX_OP[p2]] and cur.variant == 'Literal'
+                ck.require(ex, 'G4_prefix_chain_nests_in_order', r.pc, None, z3.BoolVal(good), lambda mm, w=dict(w0, nesting=shape, innermost=str(cur.variant)): w, lambda mm, w: 'prefix-order')
+
+
+pratt_prefix_chain('ExprParser', 'ExprParser')
+pratt_prefix_chain('Parser', 'Parser')
 pratt_prefix('ExprParser', 'ExprParser')
 pratt_prefix('Parser', 'Parser')
 pratt('ExprParser', 'ExprParser', 2, 'G1_grouping')
